@@ -9,8 +9,15 @@ import (
 	"hash"
 	"strings"
 
+	mimc377 "github.com/consensys/gnark-crypto/ecc/bls12-377/fr/mimc"
+	mimc381 "github.com/consensys/gnark-crypto/ecc/bls12-381/fr/mimc"
+	mimc315 "github.com/consensys/gnark-crypto/ecc/bls24-315/fr/mimc"
+	mimc317 "github.com/consensys/gnark-crypto/ecc/bls24-317/fr/mimc"
 	"github.com/consensys/gnark-crypto/ecc/bn254/fr"
 	"github.com/consensys/gnark-crypto/ecc/bn254/fr/mimc"
+	mimc633 "github.com/consensys/gnark-crypto/ecc/bw6-633/fr/mimc"
+	mimc761 "github.com/consensys/gnark-crypto/ecc/bw6-761/fr/mimc"
+	mimcGr "github.com/consensys/gnark-crypto/ecc/grumpkin/fr/mimc"
 	fiatshamir "github.com/consensys/gnark-crypto/fiat-shamir"
 
 	"verif/harness/gen"
@@ -325,6 +332,37 @@ func main() {
 		{"mimc-le", func() hash.Hash { return mimc.NewMiMC(mimc.WithByteOrder(fr.LittleEndian)) }, []string{"a" + strings.Repeat("-", 30) + " ", "b" + strings.Repeat("-", 30) + " ", "c" + strings.Repeat("-", 30) + " ", "bb"}, mimcValLE, mimcBadLE}, // 32 printable bytes, last one < 0x30: canonical in little endian
 	}
 	maxLen := map[string]int{"sha256": c.Pick(6, 7), "mimc": c.Pick(4, 5), "mimc-le": c.Pick(3, 4)}
+	// the MiMC of every other field as transcript hash (shorter histories): values are small integers written on one
+	// block, every third one on two blocks
+	for _, o := range []struct {
+		label string
+		newH  func() hash.Hash
+	}{
+		{"mimc-bls12-377", func() hash.Hash { return mimc377.NewMiMC() }}, {"mimc-bls12-381", func() hash.Hash { return mimc381.NewMiMC() }},
+		{"mimc-bls24-315", func() hash.Hash { return mimc315.NewMiMC() }}, {"mimc-bls24-317", func() hash.Hash { return mimc317.NewMiMC() }},
+		{"mimc-bw6-633", func() hash.Hash { return mimc633.NewMiMC() }}, {"mimc-bw6-761", func() hash.Hash { return mimc761.NewMiMC() }},
+		{"mimc-grumpkin", func() hash.Hash { return mimcGr.NewMiMC() }},
+	} {
+		bs := o.newH().BlockSize()
+		val := func(ctr int) []byte {
+			b := make([]byte, bs)
+			b[bs-2], b[bs-1] = byte((1000+ctr)>>8), byte(1000+ctr)
+			if ctr%3 == 0 {
+				b2 := make([]byte, bs)
+				b2[bs-1] = byte(77 + ctr)
+				return append(b, b2...)
+			}
+			return b
+		}
+		bad := func(ctr int) []byte {
+			if ctr%2 == 0 {
+				return bytes.Repeat([]byte{0xff}, bs)
+			}
+			return append(val(ctr), 0x01)
+		}
+		cfgs = append(cfgs, hcfg{o.label, o.newH, []string{"a", "bb", "gamma", "d"}, val, bad})
+		maxLen[o.label] = c.Pick(3, 4)
+	}
 	exhaustive := int64(0)
 	for _, cfg := range cfgs {
 		for nn := 1; nn <= 3; nn++ {
